@@ -89,13 +89,14 @@ def lean_id(s):
 
 
 class FnTranslator:
-    def __init__(self, fn_node, events=None, tracked_hint=None, param_order=None):
+    def __init__(self, fn_node, events=None, tracked_hint=None, param_order=None, free=None):
         self.fn = fn_node
         self.events = events or []       # list of (regex on ast.unparse(call), tag, [python expr strings])
         self.aux = []                    # auxiliary loop definitions (lean text), emitted before the main def
         self.loop_cache = {}
         self.loopn = 0
-        self.assigned = self._assigned_names(fn_node)
+        self.assigned = self._assigned_names(fn_node) - set(free or ())
+        self.free = set(free or ())
         a = fn_node.args
         self.argnames = {x.arg for x in a.posonlyargs + a.args + a.kwonlyargs}
         self.param_order = param_order
@@ -190,7 +191,7 @@ class FnTranslator:
                 if isinstance(v, list):
                     raise Untranslatable(f'list variable {nm} used as a scalar')
                 return v
-            if nm in env.dropped or (nm in self.assigned):
+            if nm not in self.free and (nm in env.dropped or (nm in self.assigned)):
                 raise Untranslatable(f'{nm} is assigned by a statement outside the integer skeleton')
             return self.param(env, nm)
         if isinstance(node, ast.Call) and isinstance(node.func, ast.Attribute) and node.func.attr in ('astype', 'item', 'copy') \
@@ -202,7 +203,7 @@ class FnTranslator:
             return self.expr(node.value, env)
         if isinstance(node, ast.Subscript) and isinstance(node.slice, ast.Constant) and isinstance(node.slice.value, str):
             base = _name_of(node.value)
-            if base is None or base in env.dropped or base in self.assigned:
+            if base is None or (base not in self.free and (base in env.dropped or base in self.assigned)):
                 raise Untranslatable('subscript ' + ast.unparse(node))
             return self.param(env, f'{base}_{node.slice.value}')
         if isinstance(node, ast.Subscript):
@@ -252,6 +253,10 @@ class FnTranslator:
         if isinstance(node, ast.Call):
             cn = _callname(node)
             args = node.args
+            if cn == 'arange' and self.elementwise and len(args) == 1:
+                return self.param(env, 'i')         # element i of np.arange(n): the expression is read pointwise
+            if cn == 'mod' and len(args) == 2:
+                return f'(Int.fmod {self.expr(args[0], env)} {self.expr(args[1], env)})'
             if cn in ('int', 'int64', 'int32', 'intp') and len(args) == 1:
                 inner = args[0]
                 if isinstance(inner, ast.Call) and _callname(inner) in ('floor', 'ceil', 'round', 'rint', 'around') and len(inner.args) == 1:
@@ -390,6 +395,9 @@ class FnTranslator:
 
     def assign(self, stmt, env, lets):
         """try to translate an assignment into lets; returns True when handled as tracked, False when dropped"""
+        tg_ = [stmt.target] if isinstance(stmt, ast.AugAssign) else stmt.targets
+        if any((_name_of(t) in self.free) or (isinstance(t, ast.Subscript) and _name_of(t.value) in self.free) for t in tg_):
+            return False        # a name declared free in the spec: it stays a parameter, whatever is assigned to it
         if isinstance(stmt, ast.AugAssign):
             nm = _name_of(stmt.target)
             if nm is None:
@@ -651,6 +659,7 @@ class FnTranslator:
     generators_elem = {}
     fraction_params = {}
     assume = {}
+    elementwise = False
     optional = {}            # lean parameter name -> presence-flag parameter name
     option_return = False
     needs_fuel = False
@@ -861,7 +870,8 @@ def translate_item(src_root, item):
     path = Path(src_root) / item['module']
     tree = ast.parse(path.read_text())
     fn = find_function(tree, item['function'])
-    tr = FnTranslator(fn, events=item.get('events'), param_order=item.get('params'))
+    tr = FnTranslator(fn, events=item.get('events'), param_order=item.get('params'), free=item.get('free'))
+    tr.elementwise = bool(item.get('elementwise'))
     tr.fname = item['name']
     tr.generators = dict(item.get('_generators', {}))
     tr.generators_elem = dict(item.get('_generators_elem', {}))
@@ -951,7 +961,7 @@ def _path_to_assignment(fn, target, occurrence):
         for i, s in enumerate(block):
             if isinstance(s, (ast.Assign, ast.AugAssign)):
                 tg = s.targets if isinstance(s, ast.Assign) else [s.target]
-                if any(_name_of(t) == target for t in tg):
+                if any(_name_of(t) == target or ast.unparse(t) == target for t in tg):
                     hits.append(chain + [(block, i)])
             for sub in ('body', 'orelse', 'finalbody'):
                 b = getattr(s, sub, None)
